@@ -1,4 +1,5 @@
 import FpVerif.Properties.C19
+import FpVerif.Properties.C19_Gen
 import FpVerif.Properties.C19_More
 import FpVerif.Properties.C19_Raw
 #print axioms Fp.C19.read_bounded
@@ -25,6 +26,15 @@ import FpVerif.Properties.C19_Raw
 #print axioms Fp.C19.settingsList_encode
 #print axioms Fp.C19.settings_roundtrip
 #print axioms Fp.C19.headers_roundtrip
+#print axioms Fp.C19.gen_ok_parser_table
+#print axioms Fp.C19.gen_ok_frame_types
+#print axioms Fp.C19.gen_ok_flags
+#print axioms Fp.C19.gen_ok_type_dispatch
+#print axioms Fp.C19.gen_ok_frame_order
+#print axioms Fp.C19.gen_ok_sizes
+#print axioms Fp.C19.model_dispatch_matches_table
+#print axioms Fp.C19.model_known_types
+#print axioms Fp.C19.model_sizes
 #print axioms Fp.C19.continuation_roundtrip
 #print axioms Fp.C19.headers_priority_roundtrip
 #print axioms Fp.C19.push_promise_roundtrip
